@@ -130,4 +130,203 @@ theorem theta_roundtrip_direct (θ : Theta ℝ) : thetaFromPseudo (pseudo θ) = 
   rw [cholUpper_mulTranspose _ (upperOfTheta_posDiag θ)]
   simp [thetaOfUpper_upperOfTheta]
 
+/-! ### applying θ to a body: what is left in the spec, and what the compiler then produces
+
+`CompileEnv` collects everything the mass-property part of `mjCBody::Compile` reads and the Python code
+does not write: the geoms' inertial `geo`, `mjuu_fullInertia` (`eig`), the orientation alternative,
+`boundmass`/`boundinertia`, `balanceinertia`.  The theorems quantify over **all** of it, over the
+caller's `compiler.inertiafromgeom` (`s.ifg`: false / true / auto) and over the body's previous inertial
+fields (`s.body`: with or without an explicit inertial, full or diagonal). -/
+
+/-- `apply_body_theta_inertia` succeeds exactly when its query compile (`_infer_inertial`: the caller's
+    spec compiled under `inertiafromgeom = AUTO`) does, and then leaves `inertiafromgeom = AUTO` and the
+    inertial fields `specOfTheta θ` — whatever the option and the fields were before. -/
+theorem applyTheta_eq (env : CompileEnv ℝ) (s : SpecState ℝ) (θ : Theta ℝ) :
+    applyTheta env s θ =
+      (compileBody env .auto s.body).map
+        (fun m => { ifg := .auto, body := specOfTheta θ, model := some m }) := by
+  simp only [applyTheta, applyProg, inferInertial, inferProg, run, exec, IFG.ofCode?]
+  cases h : compileBody env .auto s.body with
+  | error e => simp [Except.map]
+  | ok m => simp [Except.map, withModel, specOfTheta]
+
+theorem applyTheta_state (env : CompileEnv ℝ) (s s1 : SpecState ℝ) (θ : Theta ℝ)
+    (h : applyTheta env s θ = .ok s1) : s1.ifg = .auto ∧ s1.body = specOfTheta θ := by
+  rw [applyTheta_eq] at h
+  cases hc : compileBody env .auto s.body with
+  | error e => simp [hc, Except.map] at h
+  | ok m =>
+    simp only [hc, Except.map, Except.ok.injEq] at h
+    subst h
+    exact ⟨rfl, rfl⟩
+
+/-- the principal moments `d` returned by the compiler's eigen-decomposition are the moments of the
+    central inertia in some orthonormal frame (its eigenvector frame) -/
+def FrameMoments (θ : Theta ℝ) (d : V3 ℝ) : Prop :=
+  ∃ a0 a1 a2 b0 b1 b2 c0 c1 c2 : ℝ, Orthonormal3 a0 a1 a2 b0 b1 b2 c0 c1 c2 ∧
+    d.x = quadFull (bodyOfTheta θ) a0 a1 a2 ∧ d.y = quadFull (bodyOfTheta θ) b0 b1 b2 ∧
+    d.z = quadFull (bodyOfTheta θ) c0 c1 c2
+
+/-- frame moments are positive and satisfy the strict triangle inequalities: neither the compiler's
+    "mass and inertia cannot be negative" nor its `A + B >= C` check (error, or `balanceinertia`
+    rewriting the moments) can fire on them. -/
+theorem FrameMoments.physical {θ : Theta ℝ} {d : V3 ℝ} (h : FrameMoments θ d) :
+    0 < d.x ∧ 0 < d.y ∧ 0 < d.z ∧ d.z < d.x + d.y ∧ d.y < d.x + d.z ∧ d.x < d.y + d.z := by
+  obtain ⟨a0, a1, a2, b0, b1, b2, c0, c1, c2, ho, hx, hy, hz⟩ := h
+  have t1 := central_triangle_inequalities θ ho
+  have t2 := central_triangle_inequalities θ ho.rotate
+  have t3 := central_triangle_inequalities θ ho.rotate.rotate
+  rw [hx, hy, hz]
+  refine ⟨?_, ?_, ?_, ?_, ?_, ?_⟩ <;> linarith
+
+/-- **The compiler keeps the explicit inertial written by `apply_body_theta_inertia`** whenever
+    `inertiafromgeom` is not `TRUE` or the body has no geom with mass: mass `m`, `ipos = h/m`, and the
+    principal frame / moments of the written `fullinertia`; no error, no `balanceinertia` rewrite. -/
+theorem compile_specOfTheta (env : CompileEnv ℝ) (ifg : IFG) (θ : Theta ℝ) (q : Q4 ℝ) (d : V3 ℝ)
+    (hsrc : ifg ≠ .on ∨ env.geo = none)
+    (hq : env.ialtQuat = true)
+    (heig : env.eig (fullOfBody (bodyOfTheta θ)) = some (q, d))
+    (hd : FrameMoments θ d)
+    (hbm : env.boundmass ≤ (bodyOfTheta θ).mass)
+    (hbi : env.boundinertia ≤ d.x ∧ env.boundinertia ≤ d.y ∧ env.boundinertia ≤ d.z) :
+    compileBody env ifg (specOfTheta θ) =
+      .ok { mass := (bodyOfTheta θ).mass,
+            ipos := { x := (bodyOfTheta θ).ipos0, y := (bodyOfTheta θ).ipos1, z := (bodyOfTheta θ).ipos2 },
+            iquat := some q, inertia := d } := by
+  obtain ⟨p0, p1, p2, t0, t1, t2⟩ := hd.physical
+  obtain ⟨b0, b1, b2⟩ := hbi
+  have hm : 0 < (bodyOfTheta θ).mass := by
+    have := mass_pos θ
+    simpa [bodyOfTheta, bodyOfPi] using this
+  have hfin : finishBody env
+      { mass := (bodyOfTheta θ).mass,
+        ipos := some { x := (bodyOfTheta θ).ipos0, y := (bodyOfTheta θ).ipos1, z := (bodyOfTheta θ).ipos2 },
+        iquat := some q, inertia := d } =
+      .ok { mass := (bodyOfTheta θ).mass,
+            ipos := { x := (bodyOfTheta θ).ipos0, y := (bodyOfTheta θ).ipos1, z := (bodyOfTheta θ).ipos2 },
+            iquat := some q, inertia := d } := by
+    simp only [finishBody, stdMax, MjNum.lit, real_ofInt, Int.cast_zero]
+    rw [if_neg (not_lt.mpr hbm), if_neg (not_lt.mpr b0), if_neg (not_lt.mpr b1), if_neg (not_lt.mpr b2)]
+    have n0 : ¬ (bodyOfTheta θ).mass < 0 := not_lt.mpr hm.le
+    have n1 : ¬ d.x < 0 := not_lt.mpr p0.le
+    have n2 : ¬ d.y < 0 := not_lt.mpr p1.le
+    have n3 : ¬ d.z < 0 := not_lt.mpr p2.le
+    have m1 : ¬ d.x + d.y < d.z := not_lt.mpr t0.le
+    have m2 : ¬ d.x + d.z < d.y := not_lt.mpr t1.le
+    have m3 : ¬ d.y + d.z < d.x := not_lt.mpr t2.le
+    simp [n0, n1, n2, n3, m1, m2, m3]
+  simp only [compileBody, specOfTheta, hq, heig, truthy, MjNum.lit, real_ofInt, Int.cast_zero, real_beq,
+    Option.isSome_some, Bool.not_true, Bool.and_false, Option.map_some, useGeom, Option.isNone_some,
+    Bool.false_and, Bool.or_false, Bool.false_or, decide_true, Bool.not_true, Bool.or_self]
+  rcases hsrc with h | h
+  · cases ifg
+    · simpa using hfin
+    · exact absurd rfl h
+    · simpa using hfin
+  · rw [h]
+    cases ifg <;> simpa using hfin
+
+/-- **Apply then compile gives the mass properties of `pi_from_theta θ`**, for every value of the
+    caller's `compiler.inertiafromgeom`, every previous inertial of the body, every geom inertial
+    (`env.geo`, including none) and with or without `balanceinertia`: the final compile (under the option
+    value the call left in the spec) returns mass `m`, `ipos = h/m` and the principal frame / moments of
+    the central inertia `I_bar + m·skew(h/m)²`. -/
+theorem apply_compile_same (env : CompileEnv ℝ) (s s1 : SpecState ℝ) (θ : Theta ℝ) (q : Q4 ℝ) (d : V3 ℝ)
+    (happly : applyTheta env s θ = .ok s1)
+    (hq : env.ialtQuat = true)
+    (heig : env.eig (fullOfBody (bodyOfTheta θ)) = some (q, d))
+    (hd : FrameMoments θ d)
+    (hbm : env.boundmass ≤ (bodyOfTheta θ).mass)
+    (hbi : env.boundinertia ≤ d.x ∧ env.boundinertia ≤ d.y ∧ env.boundinertia ≤ d.z) :
+    compileBody env s1.ifg s1.body =
+      .ok { mass := (piFromTheta θ).m,
+            ipos := { x := (piFromTheta θ).h0 / (piFromTheta θ).m, y := (piFromTheta θ).h1 / (piFromTheta θ).m,
+                      z := (piFromTheta θ).h2 / (piFromTheta θ).m },
+            iquat := some q, inertia := d } := by
+  obtain ⟨h1, h2⟩ := applyTheta_state env s s1 θ happly
+  rw [h1, h2, compile_specOfTheta env .auto θ q d (Or.inl (by decide)) hq heig hd hbm hbi]
+  rfl
+
+theorem frameMoments_body_frame (θ : Theta ℝ) :
+    FrameMoments θ { x := (bodyOfTheta θ).fxx, y := (bodyOfTheta θ).fyy, z := (bodyOfTheta θ).fzz } :=
+  ⟨1, 0, 0, 0, 1, 0, 0, 0, 1, by constructor <;> norm_num, by simp [quadFull], by simp [quadFull],
+    by simp [quadFull]⟩
+
+/-- non-vacuity of `apply_compile_same` on the scenario it is about: the caller's spec has
+    `inertiafromgeom = TRUE`, the body has a mass-carrying geom (`geo = some _`) and no explicit
+    inertial; every hypothesis is satisfiable for every `θ`. -/
+example (θ : Theta ℝ) : ∃ (env : CompileEnv ℝ) (s s1 : SpecState ℝ) (q : Q4 ℝ) (d : V3 ℝ),
+    s.ifg = .on ∧ env.geo.isSome = true ∧ applyTheta env s θ = .ok s1 ∧ env.ialtQuat = true ∧
+    env.eig (fullOfBody (bodyOfTheta θ)) = some (q, d) ∧ FrameMoments θ d ∧
+    env.boundmass ≤ (bodyOfTheta θ).mass ∧
+    (env.boundinertia ≤ d.x ∧ env.boundinertia ≤ d.y ∧ env.boundinertia ≤ d.z) := by
+  let qid : Q4 ℝ := { w := 1, x := 0, y := 0, z := 0 }
+  let z3 : V3 ℝ := { x := 0, y := 0, z := 0 }
+  let g : Compiled ℝ := { mass := 1, ipos := z3, iquat := some qid, inertia := { x := 1, y := 1, z := 1 } }
+  let env : CompileEnv ℝ :=
+    { geo := some g, eig := fun f => some (qid, { x := f.xx, y := f.yy, z := f.zz }), normq := id,
+      bpos := z3, bquat := qid, ialtQuat := true, altq := qid, boundmass := 0, boundinertia := 0,
+      balance := false }
+  let s : SpecState ℝ :=
+    { ifg := .on,
+      body := { explicitinertial := false, mass := 0, ipos := none, iquat := some qid, inertia := z3,
+                full := none },
+      model := none }
+  have hfm := frameMoments_body_frame θ
+  obtain ⟨p0, p1, p2, -, -, -⟩ := hfm.physical
+  have hm : 0 < (bodyOfTheta θ).mass := by
+    have := mass_pos θ
+    simpa [bodyOfTheta, bodyOfPi] using this
+  refine ⟨env, s, { ifg := .auto, body := specOfTheta θ, model := some g }, qid, _, rfl, rfl, ?_, rfl, rfl,
+    hfm, hm.le, p0.le, p1.le, p2.le⟩
+  rw [applyTheta_eq]
+  simp [compileBody, finishBody, useGeom, stdMax, truthy, Except.map, env, s, g, z3, MjNum.lit]
+  norm_num
+
+
+/-- Why the write `spec.compiler.inertiafromgeom = AUTO` must survive until the final compile: under
+    `inertiafromgeom = TRUE` a body with a mass-carrying geom compiles to the *geoms'* inertial, whatever
+    explicit inertial was written. -/
+theorem compile_under_true_uses_geoms (env : CompileEnv ℝ) (θ : Theta ℝ) (g : Compiled ℝ) (q : Q4 ℝ) (d : V3 ℝ)
+    (hq : env.ialtQuat = true) (hg : env.geo = some g)
+    (heig : env.eig (fullOfBody (bodyOfTheta θ)) = some (q, d)) :
+    compileBody env .on (specOfTheta θ) =
+      finishBody env { mass := g.mass, ipos := some g.ipos, iquat := g.iquat, inertia := g.inertia } := by
+  simp [compileBody, specOfTheta, hq, hg, heig, truthy, useGeom]
+
+/-- the orientation-alternative error: if the body's inertial orientation was given as
+    euler / axisangle / xyaxes / zaxis (`ialt.type ≠ QUAT`, which `_infer_inertial` does not reset), the
+    spec left by `apply_body_theta_inertia` does not compile. -/
+theorem compile_specOfTheta_orientation_alt (env : CompileEnv ℝ) (ifg : IFG) (θ : Theta ℝ)
+    (hq : env.ialtQuat = false) :
+    compileBody env ifg (specOfTheta θ) = .error .fullAndOrientation := by
+  simp [compileBody, specOfTheta, hq]
+
+/-- `pi_from_body` on the compiled result recovers `pi_from_theta θ` exactly, provided the
+    reconstruction `R diag(inertia) Rᵀ` reproduces the written `fullinertia` (correctness of the
+    compiler's eigen-decomposition, given as hypothesis). -/
+theorem pi_from_body_apply (θ : Theta ℝ) :
+    let B := bodyOfTheta θ
+    piOfCompiled B.mass { x := B.ipos0, y := B.ipos1, z := B.ipos2 }
+      { m00 := B.fxx, m01 := B.fxy, m02 := B.fxz, m10 := B.fxy, m11 := B.fyy, m12 := B.fyz,
+        m20 := B.fxz, m21 := B.fyz, m22 := B.fzz } = piFromTheta θ := by
+  have hm : (piFromTheta θ).m ≠ 0 := (mass_pos θ).ne'
+  have hs := inertia_symm θ
+  obtain ⟨s10, s20, s21⟩ := hs
+  cases hp : piFromTheta θ with
+  | mk m h0 h1 h2 I =>
+  cases I with
+  | mk m00 m01 m02 m10 m11 m12 m20 m21 m22 =>
+  simp only [hp] at hm s10 s20 s21
+  subst s10 s20 s21
+  simp only [bodyOfTheta, hp, bodyOfPi, piOfCompiled, Pi.mk.injEq, Mat3.mk.injEq]
+  refine ⟨trivial, ?_, ?_, ?_, ?_, ?_, ?_, ?_, ?_, ?_, ?_, ?_, ?_⟩ <;> field_simp <;> ring
+
+/-- other bodies: when the caller's option already was `AUTO`, every other body compiles exactly as
+    before the call (the option is the only spec-global thing the call writes). -/
+theorem other_body_unchanged_of_auto (env env' : CompileEnv ℝ) (s s1 : SpecState ℝ) (θ : Theta ℝ)
+    (b' : SpecBody ℝ) (h0 : s.ifg = .auto) (happly : applyTheta env s θ = .ok s1) :
+    compileBody env' s1.ifg b' = compileBody env' s.ifg b' := by
+  rw [(applyTheta_state env s s1 θ happly).1, h0]
+
 end MjProof.C47
